@@ -206,6 +206,7 @@ class Interp:
         self.cond_policy = None      # list of outcomes for opaque conditions (np.isclose ...), None: unsupported
         self.cond_log = []
         self._masks = {}
+        self._cond_stack = []      # data-dependent conditions of the enclosing if-converted branches: (condition, taken)
 
     # ------------------------------------------------------------------ entry points
     def call_function(self, func, args, kwargs=None, depth=0):
@@ -382,14 +383,20 @@ class Interp:
             env1 = _clone_env(env)
             env2 = _clone_env(env)
             r1 = r2 = None
+            self._cond_stack.append((c, True))
             try:
                 self.exec_block(st.body, env1, func, depth)
             except _Return as r:
                 r1 = r
+            finally:
+                self._cond_stack.pop()
+            self._cond_stack.append((c, False))
             try:
                 self.exec_block(st.orelse, env2, func, depth)
             except _Return as r:
                 r2 = r
+            finally:
+                self._cond_stack.pop()
             if r1 is not None or r2 is not None:
                 if r1 is not None and r2 is not None:
                     raise _Return(self.merge(c, r1.value, r2.value))
@@ -1255,7 +1262,34 @@ class Interp:
             return f(*args, **kwargs)
         raise AnalysisError("%s:%d unsupported call %s" % (func.qualname, ln, unparse(node.func)))
 
+    def _path_cond(self):
+        pc = None
+        for c, taken in self._cond_stack:
+            cc = c if taken else self.dom.cnot(c)
+            pc = cc if pc is None else self.dom.cand(pc, cc)
+        return pc
+
     def call_builtin(self, name, args, kwargs, node, func):
+        """numpy's out= convention: the result is WRITTEN INTO the out array (in place, under the conditions of the
+        enclosing data-dependent branches) and that array is returned"""
+        if "out" in kwargs and kwargs["out"] is not None and name.startswith("np"):
+            kwargs = dict(kwargs)
+            out = kwargs.pop("out")
+            r = self._call_builtin(name, args, kwargs, node, func)
+            pc = self._path_cond()
+            if isinstance(out, SArr) and self.stn is not None and (isinstance(r, SArr) or self.is_num(r)):
+                rr = r if isinstance(r, SArr) else SArr(out.length, [(0, out.length, self.lift(r))])
+                new = rr if pc is None else self.stn.zip_map(lambda n_, o_: self.dom.where(pc, n_, o_), rr, out)
+                self.stn.assign_slice(out, None, None, new)
+                return out
+            if isinstance(out, Vec) and isinstance(r, Vec):
+                out.x = r.x if pc is None else self.dom.where(pc, r.x, out.x)
+                out.y = r.y if pc is None else self.dom.where(pc, r.y, out.y)
+                return out
+            raise AnalysisError("%s:%d out= into a value the analysis cannot update in place" % (func.qualname, node.lineno))
+        return self._call_builtin(name, args, kwargs, node, func)
+
+    def _call_builtin(self, name, args, kwargs, node, func):
         d = self.dom
         ln = node.lineno
         base = name.split(".")[-1] if not name.startswith("builtin:") else name[8:]
